@@ -137,6 +137,9 @@ SEEDS = {
     "C05g-three-point-diffusion-constant-mixup": ("C05", "--derivation 3: the diffusion stencil adds e1/(2 delta) instead of e1/delta^2 (identifier mix-up), energy spread settles at 0.39", ["C04", "C01"]),
     "C06g-bucket-list-kept-by-reference": ("C06", "the caller modifies or destroys its bucket-number vector after constructing the field: the field keeps a reference instead of a copy", ["C18", "C07"]),
     "C07g-wake-divided-by-integral": ("C07", "a phase space whose integral (as last computed by integrate()) differs from 1 (RenormalizeCharge -1, charge lost, un-normalised data): the wake is divided by the integral, the spectrum is not", ["C06", "C10", "C05"]),
+    "C09g-variance-about-position-mean": ("C09", "a bunch whose mean position differs from its mean energy (displaced on one axis only): variance() takes the second moment of either axis about the POSITION mean (hoisted out of the loop from the wrong array)", ["C10", "C04"]),
+    "C11g-loaded-grid-energy-scale-relative": ("C11", "a start from a results file together with --alpha1/--alpha2 or --LinearRF false: the loaded grid's energy axis carries the relative spread as its ElectronVolt scale (factor E0 off), the higher-order drift and the sinusoidal kick of the continued leg are wrong", []),
+    "C13g-alpha0-commented-when-fs-given": ("C13", "a non-default alpha0 together with a SynchrotronFrequency that was given anywhere, in particular the explicit 0 every saved .cfg contains (second generation): alpha0 is written as a comment", []),
     "C10-": ("C10", "", []),
     "C17-": ("C17", "", []),
 }
